@@ -311,6 +311,10 @@ def run_case(case):
                     ask(last_d, op, f)
                 else:
                     mutate(last_d, op)
+                    # the derived table was modified through its own API (possibly a new column or
+                    # scalar): that is not "an earlier table changed" - record its new length and columns
+                    ancestors[:] = [(a, len(a), list(a._col_names)) if a is last_d else (a, alen, acols)
+                                    for a, alen, acols in ancestors]
                     f += rect_failures(last_d)
                     f += reask(f"after {op[0]} through the derived table")
                 res = ["ok", shape(last_d)]
